@@ -755,19 +755,39 @@ def r07_4(rep: Report, idx: Index) -> None:
     tree = rep.repo.tree(rel)
     cls = need(find_class(tree, 'OptionsContainer'), 'OptionsContainer')
     a = need(find_func(cls, '_generate_parameters_dict'), '_generate_parameters_dict')
-    b = need(find_func(cls, '_convert_sub_options'), '_convert_sub_options')
+    # the nested (prefix group) options are emitted by a sibling, or - when that sibling is a helper that
+    # was merged into its caller - by a second emission inside the generator itself
+    b = find_func(cls, '_convert_sub_options')
     from ..pathcond import PathCond, atoms_of, entails as pc_entails, f_not, show as pc_show
     from ..flow import Disjunctive, Flow
-    for fn in (a, b):
+    def is_emit(st: ast.stmt, fn_: ast.AST) -> bool:
+        """destination[..] = opt.to_string(value), directly or through a local that names the text"""
+        if not (isinstance(st, ast.Assign) and isinstance(st.targets[0], ast.Subscript)):
+            return False
+
+        def has_ts(e: ast.AST) -> bool:
+            return any(isinstance(c, ast.Call) and isinstance(c.func, ast.Attribute) and c.func.attr == 'to_string'
+                       for c in ast.walk(e))
+        if has_ts(st.value):
+            return True
+        if isinstance(st.value, ast.Name):
+            ds = [a_.value for a_ in ast.walk(fn_) if isinstance(a_, ast.Assign) and len(a_.targets) == 1
+                  and isinstance(a_.targets[0], ast.Name) and a_.targets[0].id == st.value.id]
+            return bool(ds) and all(has_ts(d) for d in ds)
+        return False
+    if b is None:
+        n_emit = len([st for st in ast.walk(a) if is_emit(st, a)])
+        if n_emit < 2:
+            raise AnalysisError('anchor vanished: _convert_sub_options (and _generate_parameters_dict has no second '
+                                'emission for the options of a prefix group)')
+    for fn in ((a, b) if b is not None else (a,)):
         construct = f'{rel}::OptionsContainer.{fn.name}'
         emits: list[tuple[ast.stmt, tuple]] = []
 
-        def on_stmt(st, states, _emits=emits):
+        def on_stmt(st, states, _emits=emits, _fn=fn):
             if isinstance(st, (ast.If, ast.While, ast.For, ast.With, ast.Try)):
                 return
-            if isinstance(st, ast.Assign) and isinstance(st.targets[0], ast.Subscript) \
-                    and any(isinstance(c, ast.Call) and isinstance(c.func, ast.Attribute)
-                            and c.func.attr == 'to_string' for c in ast.walk(st.value)):
+            if is_emit(st, _fn):
                 for x in states:
                     _emits.append((st, x))
         Flow(Disjunctive(PathCond(), cap=512), on_stmt=on_stmt).run(fn, [PathCond.initial()])
@@ -910,7 +930,7 @@ def analyse(rep: Report) -> None:
     rep.rule('R07.2', 'options read while generating media carry a media usage', floor=20)
     rep.rule('R07.3', 'resolved start and depth are stored before URL parameters are computed', floor=3)
     rep.rule('R07.4', 'usage mask / exclude / defaults agree between the parameter generators and the '
-                      'sets reach the matching media type', floor=15)
+                      'sets reach the matching media type', floor=11)
     rep.rule('R07.5', 'option parsers keep no state between the items of a list value', floor=3)
     idx = Index(rep.repo)
     cg = CallGraph(idx)
